@@ -135,13 +135,13 @@ def run(ctx):
         rp = json.load(open(ctx.replay))
         cases = [v["case"] for v in rp.get("violations", []) if "case" in v]
         # re-run the same seed and pick the cases again (the harness is deterministic per seed)
-        n = 144 if rp.get("tier", "quick") == "quick" else 800
+        n = 128 if rp.get("tier", "quick") == "quick" else 800
         allc = ctx.run_json([binp, "cases", str(n)], env={"VERIF_SEED": str(rp.get("seed", ctx.seed))})
         idxs = [v.get("index") for v in rp.get("violations", []) if v.get("index") is not None]
         cases = [allc[i] for i in idxs if i < len(allc)] or cases
     else:
-        # + the fixed matrix of 22 (kind, mutation) pairs the harness emits first in every run (44 cases)
-        n = 144 if ctx.tier == "quick" else 800
+        # + the fixed matrix of 27 (kind, mutation) pairs the harness emits first in every run (54 cases)
+        n = 128 if ctx.tier == "quick" else 800
         cases = ctx.run_json([binp, "cases", str(n)])
     ctx.n_cases = n if not ctx.replay else 0
     if not model:
